@@ -125,6 +125,7 @@ def handler : Handler := fun op inp out =>
             (model, check (printClauses (inputSym s (rep == "psym" || rep == "ssym")) again))
           | none => (model, fail "answer-not-understood")
     | none => bad
+  | "setup" => ("-", fail "library-constructor-panicked-while-building-the-input-universe")
   | _ => ("-", fail s!"driver-unknown-op-{op}")
 
 end DrvC01
